@@ -105,10 +105,17 @@ def make_interp(repo):
     return Interp(repo, hooks={'global': glob_hook, 'expr': expr_hook, 'call': call_hook}, max_depth=40)
 
 
+def exact_coincidence(tr_):
+    """a path on which two different values are exactly equal (a new value compared with `==` against a remembered one): there nothing has moved, so nothing can be stale;
+    the histories that send the same value again (RESEND) cover exact-equality short-cuts"""
+    return any(isinstance(v_, X.Node) and v_.op == 'cmp' and v_.val in ('==', '!=') and PathExplorer.arm(v_, o_)[0] == 'equality' for (v_, _w, _t, o_) in tr_)
+
+
 def explore_history(history):
     """history(fork) interprets one mutator history and returns what the objects expose.  A tolerance test on the state (np.allclose(new, current)) may come out either way for
     values that differ, so every outcome is a history; the one on which a test held although the value moved is the one compared (it is the one that can go stale)."""
     paths = PathExplorer(max_paths=64).run(history)
+    paths = [p_ for p_ in paths if not exact_coincidence(p_[0])] or paths
     got, label = paths[0][1], ''
     for tr_, g_ in paths:
         if tr_ and any(o_ for (_v, _w, _t, o_) in tr_):
@@ -392,8 +399,8 @@ def functional_api(chk, repo, d):
             n = itf.call(mconv, need_func(mconv, 'semi_a2orbital_motion'), [st['a'], st['M_host'], st['M_world']])
             fm = itf.call(mm, need_func(mm, 'find_mode_manipulators'), [2, 2, obliq_on])
             sus = itf.call(mdis, need_func(mdis, 'calc_tidal_susceptibility'), [st['M_host'], st['R'], st['a']])
-            er = itf.call(fm[2].mod, fm[2].node, [st['e']])
-            ob = itf.call(fm[3].mod, fm[3].node, [st['obl'] if obliq_on else X.ZERO])
+            er = itf.apply(fm[2], [st['e']], {}, None, None)          # (the registries may hold the table functions or callable wrappers around them)
+            ob = itf.apply(fm[3], [st['obl'] if obliq_on else X.ZERO], {}, None, None)
             uniq, terms = itf.call(mm, need_func(mm, 'calculate_terms'), [st['spin'], n, st['a'], st['R'], er, ob], {'multiply_modes_by_sign': True})
             if use_ctl:
                 love = itf.call(mg, need_func(mg, 'ctl_neg_imk_helper_func'), [uniq, st['k2'], FuncRef(mc, need_func(mc, 'linear_dt')), (st['dt'],)])
